@@ -1,4 +1,12 @@
 import LK.PropsAll
+import LK.Proofs.AttrVec
+import LK.Proofs.Temporal
+import LK.Proofs.Dataset3
+import LK.Proofs.ConfigDefaults
+import LK.Proofs.PopRank
+import LK.Proofs.Bias3
+import LK.Proofs.ItemListPersist
+import LK.Proofs.ItemListArrow
 import LK.Proofs.PipelineValidate
 import Mathlib.Tactic.NormNum
 import Mathlib.Algebra.BigOperators.Fin
@@ -130,3 +138,50 @@ example : validateOk gProbe 3 = true := by decide
 def gCycle : Graph := { node := fun n => if n < 2 then .comp [{ lzy := false, acceptsNone := false, accepts := fun _ => true, src := some (1 - n) }] (fun _ => none) (fun _ _ => .ok .none) else .literal .none }
 example : validateOk gCycle 2 = false := by decide
 end LK.Pipe
+
+/-! ### instances for the theorems added in the build round -/
+namespace LK.Attr
+-- C17 dense vectors: a full-coverage, out-of-order supply satisfies the hypotheses of `dense_readback` (distinct rows, all < n)
+example : (addDense .repaired 3 [(2, some ["c"]), (0, some ["a"]), (1, some ["b"])]).get 0 = some ["a"] := by decide
+example : ([(2, some ["c"]), (0, some ["a"]), (1, some ["b"])].map (·.1) : List Nat).Nodup := by decide
+-- … and a partial supply with a null vector
+example : (addDense .repaired 3 [(2, some ["c"]), (0, none)]).get 0 = none ∧ (addDense .repaired 3 [(2, some ["c"]), (0, none)]).get 1 = none := by decide
+end LK.Attr
+
+namespace LK.Split
+-- C05: a UNIX-second cut against a date-time column, west of Greenwich: the repaired conversion is the instant itself
+example : conformCutV .repaired (-21600) .naive .unix 1600000000 = 1600000000 := by decide
+example : (splitGlobalTime .repaired (-21600) .naive [({ u := 0, i := 0, t := 5, a := () } : IRec Unit), { u := 0, i := 1, t := 9, a := () }]
+            [(.unix, 7)] none).map (fun ss => ss.map (fun s => (s.1.length, s.2.length))) = some [(1, 1)] := by decide
+end LK.Split
+
+namespace LK.IL
+-- C16: a copy with replaced identifiers of another length drops the stale ranks; C15: the list with an unknown identifier can be pickled
+example : RanksOK ex3 := by intro r hr; simp [ex3] at hr; subst hr; rfl
+example : ∃ out, pickleRT .repaired exUnk = .ok out := pickle_total exUnk [10, 999] (by decide) [10, 20] rfl
+example : (arrowRT ex3).toOption.map (fun o => (o.ids, o.ordered, o.len)) = some (some [10, 20, 30], true, 3) := by decide
+end LK.IL
+
+namespace LK.Bias
+-- C08: counts 3, 1, 2 sorted ascending by the order [1, 2, 0]: the hypotheses of `quantile_strict_mono` hold and the shares are 1/6 < 3/6 < 6/6
+example : ([1, 2, 0] : List Nat).Pairwise (fun x y => countOf [3, 1, 2] x ≤ countOf [3, 1, 2] y) := by decide
+example : quantile [3, 1, 2] [1, 2, 0] 1 < quantile [3, 1, 2] [1, 2, 0] 2 ∧ quantile [3, 1, 2] [1, 2, 0] 2 < quantile [3, 1, 2] [1, 2, 0] 0 := by decide +kernel
+end LK.Bias
+
+namespace LK.Metric
+-- C06: MeanPopRank — an unknown item (7) and a never-seen item (2, count 0) count as 0
+example : popQuantile [(0, 3), (1, 1), (2, 0)] 7 = 0 ∧ popQuantile [(0, 3), (1, 1), (2, 0)] 2 = 0 := by decide +kernel
+example : meanPopRank none (popQuantile [(0, 3), (1, 1), (2, 0)]) [0, 7] = some (1 / 2) := by decide +kernel
+end LK.Metric
+
+namespace LK.Cfg
+-- C02 / C13: one explicit connection, one parameter taken from the builder's defaults, one left unwired
+example : resolve [("y", "lit"), ("q", "zzz")] { name := "c", code := "m:f", config := none, params := ["x", "y", "z"], edges := [("x", "in")] }
+          = [("x", "in"), ("y", "lit")] := by decide
+end LK.Cfg
+
+namespace LK.DS
+-- C01: a time filter keeps exactly the records inside the window
+example : ((step (fun (a b : Nat) => decide (a ≤ b)) (fun (t : Int) => some t)
+            { users := [1], items := [5, 6], recs := [{ u := 0, i := 0, a := 3 }, { u := 0, i := 1, a := 9 }] } (.filterTime (some 2) (some 9))).1.recs.map (·.i)) = [0] := by decide
+end LK.DS
